@@ -466,7 +466,8 @@ SPEC = {
     # handler's answer, where the model refuses) is a failing input of the property and is reported by the
     # oracle in extra(); any other disagreement only breaks the tie between model and code.
     "disagreement_is_violation": False,
-    "rule": "case = fresh ControlState behind the real ControlServer on a unix socket (auth token set/unset/empty, "
+    "rule": "case = fresh ControlState behind the real ControlServer on a unix socket (one case in ten: loopback TCP) "
+            "(auth token set/unset/empty, "
             "control_requires_auth, debug switch, control mode, pairing store with viewer/operator/engineer/admin/"
             "expired/revoked/expiring-now tokens and a pending code) x one request line (exhaustive part: every "
             "dispatched name and 11 unknown names x 12 credentials x token set/unset x debug on/off, parameters "
